@@ -250,6 +250,66 @@ fn hist_op(op: &Value, regs: &std::sync::RwLock<std::collections::HashMap<u64, &
     v
 }
 
+/// What the same call returns on a freshly compiled Regex (for an iterator step: the n-th item of a fresh
+/// iterator), as the purity clause of C18 states it.
+fn fresh_result(op: &Value, srcs: &std::collections::HashMap<u64, (String, String, bool)>,
+                itinfo: &std::collections::HashMap<u64, (u64, String, String, usize)>) -> Option<Value> {
+    let name = op["op"].as_str().unwrap_or("");
+    let mk = |r: u64| -> Option<Regex> {
+        let (p, f, x) = srcs.get(&r)?;
+        (if *x { Regex::xpath(p, f) } else { Regex::xsd(p, f) }).ok()
+    };
+    let s = cps_to_string(&op["s"]).unwrap_or_default();
+    let r = guarded(|| -> Option<Value> {
+        Some(match name {
+            "is_match" => json!({"k":"ok","v": mk(op["r"].as_u64()?)?.is_match(&s)}),
+            "replace" => match mk(op["r"].as_u64()?)?.replace_all(&s, &cps_to_string(&op["repl"]).unwrap_or_default()) {
+                Ok(v) => json!({"k":"ok","v":string_to_cps(&v)}),
+                Err(e) => err_value(&e),
+            },
+            "tokenize" => match mk(op["r"].as_u64()?)?.tokenize(&s) {
+                Ok(_) => json!({"k":"ok"}),
+                Err(e) => err_value(&e),
+            },
+            "analyze" => match mk(op["r"].as_u64()?)?.analyze(&s) {
+                Ok(_) => json!({"k":"ok"}),
+                Err(e) => err_value(&e),
+            },
+            "next" => {
+                let (r, kind, s, n) = itinfo.get(&op["it"].as_u64()?)?.clone();
+                let re = mk(r)?;
+                if kind == "tokenize" {
+                    let mut it = re.tokenize(&s).ok()?;
+                    let mut last = None;
+                    for _ in 0..n {
+                        last = it.next();
+                    }
+                    match last {
+                        Some(x) => json!({"k":"some","v":string_to_cps(&x)}),
+                        None => json!({"k":"none"}),
+                    }
+                } else {
+                    let mut it = re.analyze(&s).ok()?;
+                    let mut last = None;
+                    for _ in 0..n {
+                        last = it.next();
+                    }
+                    match last {
+                        Some(x) => json!({"k":"some","v":entry_value(&x)}),
+                        None => json!({"k":"none"}),
+                    }
+                }
+            }
+            _ => return None,
+        })
+    });
+    regexml::verif_take_cutoffs();
+    match r {
+        Ok(v) => v,
+        Err(p) => Some(p),
+    }
+}
+
 /// A history of API calls on a pool of shared objects (C18): executed in order ("seq"), or from four
 /// threads that share the Regex objects while each thread owns the iterators it opened ("mt").
 fn run_history(job: &Value) -> Value {
@@ -279,6 +339,29 @@ fn run_history(job: &Value) -> Value {
     }
     let regs = std::sync::RwLock::new(std::collections::HashMap::new());
     let mut res: Vec<Value> = vec![Value::Null; hist.len()];
+    // sources of the registers and, per step of an iterator, which item of it the step asks for
+    let mut srcs = std::collections::HashMap::new();
+    let mut itinfo_at: Vec<std::collections::HashMap<u64, (u64, String, String, usize)>> = Vec::new();
+    {
+        let mut cur: std::collections::HashMap<u64, (u64, String, String, usize)> = std::collections::HashMap::new();
+        for op in hist.iter() {
+            let name = op["op"].as_str().unwrap_or("");
+            if name == "compile" {
+                srcs.insert(op["r"].as_u64().unwrap_or(0), (cps_to_string(&op["pat"]).unwrap_or_default(),
+                            cps_to_string(&op["flags"]).unwrap_or_default(), op["x"].as_bool().unwrap_or(true)));
+            }
+            if name == "tokenize" || name == "analyze" {
+                cur.insert(op["it"].as_u64().unwrap_or(0), (op["r"].as_u64().unwrap_or(0), name.to_string(),
+                           cps_to_string(&op["s"]).unwrap_or_default(), 0));
+            }
+            if name == "next" {
+                if let Some(e) = cur.get_mut(&op["it"].as_u64().unwrap_or(0)) {
+                    e.3 += 1;
+                }
+            }
+            itinfo_at.push(cur.clone());
+        }
+    }
     if job["mode"] == "mt" {
         // compile calls first (in order), then everything else from 4 threads behind a barrier;
         // ops on one iterator stay on one thread, in order
@@ -335,7 +418,13 @@ fn run_history(job: &Value) -> Value {
             res[i] = hist_op(op, &regs, &mut its);
         }
     }
-    json!({"id": id, "compile": {"k":"ok"}, "res": res})
+    // the purity clause: the same call on a freshly compiled Regex (computed after the history has run)
+    let fresh: Vec<Value> = hist
+        .iter()
+        .enumerate()
+        .map(|(i, op)| fresh_result(op, &srcs, &itinfo_at[i]).unwrap_or(Value::Null))
+        .collect();
+    json!({"id": id, "compile": {"k":"ok"}, "res": res, "fresh": fresh})
 }
 
 fn install_thread_hook() {}
